@@ -32,6 +32,8 @@ pub enum Val {
     Closure(Arc<Closure>),
     Builtin(&'static str),
     Printer { port: usize, mutex: usize, term: Option<char> },
+    /// mutable table shared by reference (every operation on it is a scheduling point)
+    Table(Arc<StdMutex<Vec<(Val, Val)>>>),
 }
 
 #[derive(Debug)]
@@ -194,6 +196,8 @@ pub struct PortSt {
     open: bool,
     buf: Vec<BufChar>,
     cursor: usize,
+    /// string port (call-with-output-string): characters are collected here, not delivered
+    capture: Option<String>,
 }
 
 pub struct Ctx {
@@ -227,7 +231,8 @@ const PROCEDURES: &[&str] = &[
     "fnmatch-ci?", "type->char", "strftime", "localtime", "dirname", "lipe-scan-break", "make-printer", "lipe-scan", "not",
     "newline", "string-append", "number->string", "make-recursive-mutex", "lock-mutex", "unlock-mutex", "list", "cons",
     "car", "cdr", "null?", "reverse", "append", "length", "for-each", "eq?", "eqv?", "string=?", "string-null?",
-    "string-length", "zero?", "1+", "1-", "force-output", "flush-all-ports", "string?", "apply", "string-join",
+    "string-length", "zero?", "1+", "1-", "force-output", "flush-all-ports", "string?", "apply", "string-join", "make-hash-table", "hash-set!", "hash-ref", "hash-remove!", "hash-count",
+    "call-with-output-string", "vector", "vector-ref", "vector-length", "list-ref", "min", "max", "abs", "modulo", "remainder",
 ];
 
 fn builtin_name(name: &str) -> Option<&'static str> {
@@ -417,7 +422,10 @@ impl Runtime {
     fn flush_all(&self, ctx: &Ctx) {
         let n = self.ports.lock().unwrap().len();
         for port in 0..n {
-            let open = self.ports.lock().unwrap()[port].open;
+            let open = {
+                let ps = self.ports.lock().unwrap();
+                ps[port].open && ps[port].capture.is_none()
+            };
             if open {
                 self.flush_port(ctx, port);
             }
@@ -435,6 +443,13 @@ impl Runtime {
                 None => return runtime("display: no such port"),
                 Some(p) if !p.open => return runtime("display: port is closed"),
                 _ => {}
+            }
+        }
+        {
+            let mut ports = self.ports.lock().unwrap();
+            if let Some(c) = ports[port].capture.as_mut() {
+                c.push_str(text);
+                return Ok(());
             }
         }
         let chars: Vec<char> = text.chars().collect();
@@ -695,6 +710,26 @@ impl Runtime {
                                     }
                                 }
                                 return Ok(Val::Closure(Arc::new(Closure { params, body: items[2..].to_vec(), env: env.clone() })));
+                            }
+                            "let" if matches!(items.get(1), Some(Sexp::Sym(_))) => {
+                                // named let: (let loop ((v init) ...) body ...)
+                                let (Some(Sexp::Sym(lname)), Some(Sexp::List(bs))) = (items.get(1), items.get(2)) else {
+                                    return unsupported("malformed named let");
+                                };
+                                let mut params = vec![];
+                                let mut inits = vec![];
+                                for b in bs {
+                                    let Sexp::List(pair) = b else { return unsupported("malformed binding") };
+                                    let (Some(Sexp::Sym(n)), Some(init)) = (pair.first(), pair.get(1)) else {
+                                        return unsupported("malformed binding");
+                                    };
+                                    params.push(n.clone());
+                                    inits.push(self.eval(init, env, ctx)?);
+                                }
+                                let inner = bind(env, lname, Val::Unspec);
+                                let clo = Val::Closure(Arc::new(Closure { params, body: items[3..].to_vec(), env: inner.clone() }));
+                                *inner.as_ref().unwrap().val.lock().unwrap() = clo.clone();
+                                return self.apply(&clo, inits, ctx);
                             }
                             "let*" | "let" | "letrec" => {
                                 let Some(Sexp::List(bs)) = items.get(1) else { return unsupported("let without binding list") };
@@ -1074,7 +1109,7 @@ impl Runtime {
                     "stdout".to_string()
                 };
                 let mut ports = self.ports.lock().unwrap();
-                ports.push(PortSt { dest: dest.clone(), open: true, buf: vec![], cursor: 0 });
+                ports.push(PortSt { dest: dest.clone(), open: true, buf: vec![], cursor: 0, capture: None });
                 let id = ports.len() - 1;
                 drop(ports);
                 self.ev(Ev::OpenPort { port: id, dest });
@@ -1200,6 +1235,81 @@ impl Runtime {
                 (Some(Val::Mutex(a)), Some(Val::Mutex(b))) => a == b,
                 _ => false,
             })),
+            "make-hash-table" => Ok(Val::Table(Arc::new(StdMutex::new(vec![])))),
+            "hash-set!" | "hash-ref" | "hash-remove!" | "hash-count" => {
+                let Some(Val::Table(t)) = args.first() else { return runtime(format!("{name}: not a hash table")) };
+                // shared mutable state: each operation is atomic, their order is up to the schedule
+                self.point();
+                let same = |a: &Val, b: &Val| match (a, b) {
+                    (Val::Str(x), Val::Str(y)) => x == y,
+                    (Val::Int(x), Val::Int(y)) => x == y,
+                    (Val::Char(x), Val::Char(y)) => x == y,
+                    (Val::Bool(x), Val::Bool(y)) => x == y,
+                    _ => false,
+                };
+                let mut tb = t.lock().unwrap();
+                match name {
+                    "hash-count" => Ok(Val::Int(tb.len() as i128)),
+                    "hash-ref" => {
+                        let key = args.get(1).cloned().unwrap_or(Val::Unspec);
+                        Ok(tb.iter().find(|(k, _)| same(k, &key)).map(|(_, v)| v.clone()).unwrap_or_else(|| args.get(2).cloned().unwrap_or(Val::Bool(false))))
+                    }
+                    "hash-remove!" => {
+                        let key = args.get(1).cloned().unwrap_or(Val::Unspec);
+                        tb.retain(|(k, _)| !same(k, &key));
+                        Ok(Val::Unspec)
+                    }
+                    _ => {
+                        let key = args.get(1).cloned().unwrap_or(Val::Unspec);
+                        let val = args.get(2).cloned().unwrap_or(Val::Unspec);
+                        if let Some(e) = tb.iter_mut().find(|(k, _)| same(k, &key)) {
+                            e.1 = val;
+                        } else {
+                            tb.push((key, val));
+                        }
+                        Ok(Val::Unspec)
+                    }
+                }
+            }
+            "call-with-output-string" => {
+                let Some(f) = args.first() else { return runtime("call-with-output-string: missing procedure") };
+                let id = {
+                    let mut ports = self.ports.lock().unwrap();
+                    let n = ports.len();
+                    ports.push(PortSt { dest: format!("string:{n}"), open: true, buf: vec![], cursor: 0, capture: Some(String::new()) });
+                    n
+                };
+                self.apply(f, vec![Val::Port(id)], ctx)?;
+                let text = self.ports.lock().unwrap()[id].capture.clone().unwrap_or_default();
+                s(&text)
+            }
+            "vector" => Ok(Val::List(Arc::new(args))),
+            "vector-ref" | "list-ref" => match (args.first(), args.get(1)) {
+                (Some(Val::List(l)), Some(Val::Int(i))) => l.get(*i as usize).cloned().ok_or(EvalErr::Runtime(format!("{name}: index out of range"))),
+                _ => runtime(format!("{name}: bad arguments")),
+            },
+            "vector-length" => match args.first() {
+                Some(Val::List(l)) => Ok(Val::Int(l.len() as i128)),
+                _ => runtime("vector-length: not a vector"),
+            },
+            "min" | "max" => {
+                let mut it = args.iter();
+                let mut acc = as_int(it.next().unwrap_or(&Val::Unspec), name)?;
+                for a in it {
+                    let b = as_int(a, name)?;
+                    acc = if name == "min" { acc.min(b) } else { acc.max(b) };
+                }
+                Ok(Val::Int(acc))
+            }
+            "abs" => Ok(Val::Int(as_int(args.first().unwrap_or(&Val::Unspec), name)?.abs())),
+            "modulo" | "remainder" => {
+                let a = as_int(args.first().unwrap_or(&Val::Unspec), name)?;
+                let b = as_int(args.get(1).unwrap_or(&Val::Unspec), name)?;
+                if b == 0 {
+                    return runtime(format!("{name}: division by zero"));
+                }
+                Ok(Val::Int(if name == "modulo" { a.rem_euclid(b) } else { a % b }))
+            }
             "string-join" => match args.first() {
                 Some(Val::List(l)) => {
                     let sep = match args.get(1) {
